@@ -286,14 +286,13 @@ def regenerate(repo, outdir):
     flags["migrateSingleTransaction"] = (
         bool(re.search(r"\bBEGIN\b", pre.group(0))) and not re.search(r"\bCOMMIT\b", pre.group(0))
         and not re.search(r"\bBEGIN\b", fin.group(0)) and bool(re.search(r"\bCOMMIT\b", fin.group(0))))
-    # D7 in both backends: `remove_profile` evicts the removed profile from the handle's key cache
+    # D7: the SQLite backend's `remove_profile` evicts the removed profile from the handle's key cache
     def fn_body(rel, name):
         m = re.search(r"\n    fn " + name + r"\(&self[^\n]*\n(.*?)\n    fn ", read(repo, rel), flags=re.S)
         if not m:
             raise RuntimeError(f"{rel}: fn {name} not found in the expected shape")
         return m.group(1)
     flags["removeProfileEvictsSqlite"] = "key_cache.remove_profile(" in fn_body("askar-storage/src/backend/sqlite/mod.rs", "remove_profile")
-    flags["removeProfileEvictsPg"] = "key_cache.remove_profile(" in fn_body("askar-storage/src/backend/postgres/mod.rs", "remove_profile")
     for k, v in flags.items():
         env["VERIF_FLAG_" + k] = "1" if v else "0"
     fl = ["/- GENERATED by tools/extract.py from /repo on every run — do not edit. -/", "namespace Askar.Generated.Flags", ""]
